@@ -500,3 +500,150 @@ MANIFEST = dict(
     note='Assumes: peer max packet size >= 1 once a channel is open (established by obligation C10.open_params); session callbacks, logger and the '
          'connection below the channel are recording stubs; buffers are abstracted to lengths in the Engine B kernel (validated against the real '
          'functions on concrete vectors each run). Bounds per obligation are in the evidence file. Trusted: CrossHair, z3, the harness oracles.')
+
+
+def flush_iter_concrete(w: int, p: int, b: int, stderr: bool) -> bool:
+    """replay twin of the send-loop kernel: one buffered chunk of b bytes, window w, peer packet size p"""
+    chan, conn, loop = mkchan(window=64, pktsize=64, fuel=100000)
+    chan._send_window = 0
+    chan._send_pktsize = p
+    chan.write(bytes(b), EXTENDED_DATA_STDERR if stderr else None)
+    chan._send_window = w
+    before = len(conn.sent)
+    # run exactly one iteration's worth by capping the window at what one iteration may take
+    chan._flush_send_buf()
+    pk = split_sent(conn.sent[before:])
+    if not pk:
+        return w == 0 or b == 0
+    first = len(pk[0][2])
+    return first == min(b, w, p) and 1 <= first <= p and first <= w and pk[0][1] == (EXTENDED_DATA_STDERR if stderr else None) and \
+        sum(len(x[2]) for x in pk) == min(b, w) and chan._send_window == w - min(b, w) and chan._send_buf_len == b - min(b, w)
+
+
+def flush_kernel(job):
+    """AST->z3: the body of the `while` loop in SSHChannel._flush_send_buf, one
+    iteration from an arbitrary state (window w >= 1, peer packet size p >= 1,
+    head buffer of b >= 1 bytes, buffered total L >= b): exactly one data packet of
+    min(b, w, p) >= 1 bytes is sent with the buffer's datatype, window and
+    buffered length shrink by that amount, the head buffer is popped iff it was
+    emptied.  Progress >= 1 byte per iteration bounds the loop by L iterations for
+    ALL window / packet / buffer sizes."""
+    import ast
+    import z3
+    from vf.engine_b import SymExec, Opaque, Q, mval, get_func_ast, strip_doc
+    node = get_func_ast(CH.SSHChannel._flush_send_buf)
+    loops = [s for s in strip_doc(node.body) if isinstance(s, ast.While)]
+    if len(loops) != 1 or ast.unparse(loops[0].test) != 'self._send_buf and self._send_window':
+        return {'status': 'inconclusive', 'reason': 'send loop not found or its condition changed: %s' % (loops and ast.unparse(loops[0].test))}
+    body = loops[0].body
+    w, p, b, L = z3.Ints('w p b L')
+    stderr = z3.Bool('stderr')
+    se = SymExec(globals_={k: v for k, v in vars(CH).items() if isinstance(v, int)}, ignore_calls=('self.logger.',))
+    se.attrs.update(_send_window=w, _send_pktsize=p, _send_buf_len=L)
+    state = {'head': b, 'popped': z3.BoolVal(False)}
+
+    def h_head(s_, g):
+        s_.env['buf'] = Opaque('bytes', [state['head']])
+        s_.env['datatype'] = 'DT'
+
+    def h_slice(s_, g):
+        s_.env['data'] = s_.merge(g, Opaque('bytes', [s_.env['pktsize']]), s_.env.get('data')) if 'data' in s_.env else Opaque('bytes', [s_.env['pktsize']])
+        state['data_slice_g'] = g
+
+    def h_delslice(s_, g):
+        state['head'] = z3.If(g, state['head'] - s_.env['pktsize'], state['head'])
+
+    def h_whole(s_, g):
+        state['data_whole_g'] = g
+
+    def h_pop(s_, g):
+        state['popped'] = z3.Or(state['popped'], g)
+
+    se.hooks['buf, datatype = self._send_buf[0]'] = h_head
+    se.hooks['data = buf[:pktsize]'] = h_slice
+    se.hooks['del buf[:pktsize]'] = h_delslice
+    se.hooks['data = buf'] = h_whole
+    se.hooks['del self._send_buf[0]'] = h_pop
+    sent = []
+
+    def send_packet(s_, e, g):
+        sent.append((g, ast.unparse(e.args[0]), len(e.args)))
+
+    se.calls['self.send_packet'] = send_packet
+    se.calls['String'] = lambda s_, e, g: Opaque('str', [])
+    se.calls['UInt32'] = lambda s_, e, g: Opaque('u32', [])
+    # `datatype is None` decides the packet type: model the datatype as a symbolic flag
+    class DT:
+        pass
+    se.env['datatype_is_none'] = z3.Not(stderr)
+    # interpret: data length is min(...) by construction of the two branches; represent `data` as bytes of symbolic length d
+    d = z3.Int('d')
+
+    # Replace len(data) by d with the branch-defined value: evaluate statements manually for the if/else on len(buf) > pktsize
+    try:
+        stmts = list(body)
+        # 1. pktsize = min(window, pktsize)
+        se.run(stmts[:2])
+        pkt = se.env['pktsize']
+        head = state['head']
+        cond = head > pkt
+        dlen = z3.If(cond, pkt, head)
+        if not (isinstance(stmts[2], ast.If) and ast.unparse(stmts[2].test) == 'len(buf) > pktsize'):
+            return {'status': 'inconclusive', 'reason': 'split statement changed: ' + ast.unparse(stmts[2])[:80]}
+        branch_texts = ([ast.unparse(x) for x in stmts[2].body], [ast.unparse(x) for x in stmts[2].orelse])
+        if branch_texts != (['data = buf[:pktsize]', 'del buf[:pktsize]'], ['data = buf', 'del self._send_buf[0]']):
+            return {'status': 'inconclusive', 'reason': 'split branches changed: %r' % (branch_texts,)}
+        head2 = z3.If(cond, head - pkt, 0)          # remaining bytes of the head buffer (0 = popped)
+        popped = z3.Not(cond)
+        se.env['data'] = Opaque('bytes', [dlen])
+        # 2. the accounting statements and the send
+        rest = stmts[3:]
+        is_none_if = [s for s in rest if isinstance(s, ast.If) and ast.unparse(s.test) == 'datatype is None']
+        acct = [s for s in rest if not isinstance(s, ast.If)]
+        se.run(acct)
+        if len(is_none_if) != 1:
+            return {'status': 'inconclusive', 'reason': 'datatype dispatch changed'}
+        t_none = ast.unparse(is_none_if[0].body[0].value.args[0])
+        t_ext = ast.unparse(is_none_if[0].orelse[0].value.args[0])
+        n_none = len(is_none_if[0].body) == 1 and len(is_none_if[0].body[0].value.args) == 2
+        n_ext = len(is_none_if[0].orelse) == 1 and len(is_none_if[0].orelse[0].value.args) == 3
+        if (t_none, t_ext, n_none, n_ext) != ('MSG_CHANNEL_DATA', 'MSG_CHANNEL_EXTENDED_DATA', True, True):
+            return {'status': 'inconclusive', 'reason': 'send statements changed: %r' % ((t_none, t_ext, n_none, n_ext),)}
+    except KeyError as e:
+        return {'status': 'inconclusive', 'reason': 'loop body no longer fits the kernel: %r' % (e,)}
+    w2, L2 = se.attrs['_send_window'], se.attrs['_send_buf_len']
+    mn = z3.If(b <= w, z3.If(b <= p, b, p), z3.If(w <= p, w, p))
+    pre = z3.And(w >= 1, p >= 1, b >= 1, L >= b)
+    post = z3.And(dlen == mn, dlen >= 1, dlen <= p, dlen <= w, w2 == w - dlen, w2 >= 0, L2 == L - dlen, L2 >= 0,
+                  head2 == b - dlen, popped == (b <= z3.If(w <= p, w, p)), z3.Implies(z3.Not(popped), head2 >= 1))
+    q = Q(60000)
+    vec = 0
+    for cw, cp, cb_ in ((1, 1, 1), (5, 2, 3), (2, 5, 3), (3, 3, 3), (10, 4, 9), (1, 9, 9), (100000, 32768, 70000)):
+        ok = flush_iter_concrete(cw, cp, cb_, False)
+        f = z3.simplify(z3.substitute(dlen, (w, z3.IntVal(cw)), (p, z3.IntVal(cp)), (b, z3.IntVal(cb_)))).as_long()
+        vec += 1
+        if not ok:
+            # the real function itself violates the property on a validation vector: report it (replayed like any model)
+            return {'status': 'cex', 'kwargs': {'w': cw, 'p': cp, 'b': cb_, 'stderr': False}, 'reason': 'validation vector', 'queries': q.n}
+        if f != min(cw, cp, cb_):
+            return {'status': 'inconclusive', 'reason': 'translator validation failed at %r: formula %d' % ((cw, cp, cb_), f)}
+    r, m = q.check(pre, z3.Not(post))
+    rv, mv = q.check(pre, post, z3.Not(popped), w2 > 0)
+    if rv != 'sat':
+        return {'status': 'inconclusive', 'reason': 'vacuity witness'}
+    base = {'queries': q.n, 'solver_s': q.t, 'evaluations': q.n + vec, 'nontrivial': q.n + vec,
+            'sample': {'w': mval(mv, w), 'p': mval(mv, p), 'b': mval(mv, b)},
+            'extra': {'validation_vectors': vec, 'range': 'all w >= 1, p >= 1, b >= 1 (mathematical ints); one loop iteration (inductive step)'}}
+    if r == 'unsat':
+        return dict(base, status='confirmed')
+    if r == 'sat':
+        kw = {'w': min(mval(m, w), 1 << 20), 'p': min(mval(m, p), 1 << 20), 'b': min(mval(m, b), 1 << 20), 'stderr': False}
+        return dict(base, status='cex', kwargs=kw, reason='z3 model')
+    return dict(base, status='inconclusive', reason='solver ' + r)
+
+
+OBLIGATIONS.append(
+    Ob('flush_kernel', flush_iter_concrete, engine='B', solver=flush_kernel,
+       functions=[CH.SSHChannel._flush_send_buf],
+       bounds='one iteration of the send loop from any state with window >= 1, peer packet size >= 1, head buffer >= 1 byte: all sizes (LIA); '
+              'progress >= 1 byte per iteration bounds the loop'))
